@@ -1,25 +1,35 @@
 #!/usr/bin/env python3
-"""prints a markdown table of the seeded changes and what the checks reported (from seeded/*/meta.json)"""
-import json, os, glob
+"""regenerates section A.7 of DESIGN.md (table of seeded changes and what the quick check of their own property reported)
+from seeded/*/meta.json; the prose between the heading and the table is kept except for the numbers on the marked lines"""
+import json, glob, os, re
 ROOT = os.path.dirname(os.path.dirname(os.path.abspath(__file__)))
-rows = []
-for d in sorted(glob.glob(os.path.join(ROOT, "seeded", "*"))):
-    m = json.load(open(os.path.join(d, "meta.json")))
-    sid = os.path.basename(d)
-    res = m.get("check_results", {})
-    out = []
-    for k, r in sorted(res.items()):
-        if not k.endswith("/quick") and not k.endswith("/thorough"):
-            continue
-        viol = [l for l in r.get("lines", []) if l.startswith("VIOLATION")]
-        und = [l for l in r.get("lines", []) if l.startswith("UNDECIDED")]
-        what = "exit %d" % r["rc"]
-        if viol:
-            what += ", %d VIOLATION line(s)%s" % (len(viol), " (no-failing-input-found)" if all("no-failing-input-found" in v for v in viol) else " (with replayed counterexample)")
-        if und:
-            what += ", undecided: " + und[0].split("reason=")[-1][:70]
-        out.append("%s: %s" % (k, what))
-    rows.append("| %s | %s | %s | %s |" % (sid, m.get("summary", "").replace("|", "/")[:160], m.get("needs", "").replace("|", "/")[:120], "; ".join(out) or "not run"))
-print("| seeded change | what was changed | needs | result of ./check |")
-print("|---|---|---|---|")
-print("\n".join(rows))
+rows = []; stat = {'detected': 0, 'undecided': 0, 'missed': 0}; lists = {'undecided': [], 'missed': []}
+key = lambda x: (os.path.basename(x).split('-')[0], int(os.path.basename(x).split('-m')[1]))
+for d in sorted(glob.glob(os.path.join(ROOT, 'seeded', '*')), key=key):
+    sid = os.path.basename(d); m = json.load(open(d + '/meta.json')); prop = m['property']
+    r = m.get('check_results', {}).get(prop + '/quick')
+    if not r:
+        rows.append("| %s | %s | not run | |" % (sid, m['summary'][:150])); continue
+    viol = [l for l in r['lines'] if l.startswith('VIOLATION')]
+    und = [l for l in r['lines'] if l.startswith('UNDECIDED')]
+    if r['rc'] == 1:
+        res = '**detected**'; how = 'replayed counterexample' if any('no-failing-input-found' not in v for v in viol) else 'named obligation (no-failing-input-found)'; stat['detected'] += 1
+    elif r['rc'] == 2:
+        res = 'undecided (exit 2)'; how = (und[0].split('reason=')[-1][:150] if und else ''); stat['undecided'] += 1; lists['undecided'].append(sid)
+    else:
+        res = 'missed (exit 0)'; how = ''; stat['missed'] += 1; lists['missed'].append(sid)
+    rows.append("| %s | %s | %s | %s |" % (sid, m['summary'].replace('|', '/').replace('\n', ' ')[:150], res, how.replace('|', '/')))
+table = "| seeded change | what was changed (agent's words, shortened) | `./check <prop> --tier quick` | how |\n|---|---|---|---|\n" + "\n".join(rows)
+p = os.path.join(ROOT, 'DESIGN.md'); s = open(p).read()
+a = s.index('### A.7 Seeded changes')
+t0 = s.index('| seeded change |', a)
+mm = re.search(r'\n(## |### )', s[t0:])
+t1 = t0 + mm.start() if mm else len(s)
+head = s[a:t0]
+head = re.sub(r'\*\*\d+ detected\*\*, \d+ undecided \(exit 2, never reported as "held"\), \d+ missed\.', '**%d detected**, %d undecided (exit 2, never reported as "held"), %d missed.' % (stat['detected'], stat['undecided'], stat['missed']), head)
+head = re.sub(r'^\d+ changes were produced', '%d changes were produced' % len(rows), head, flags=re.M)
+head = re.sub(r'Still missed \([^)]*\)', 'Still missed (%s)' % ", ".join(lists['missed']), head)
+head = re.sub(r'Undecided \([^)]*\)', 'Undecided (%s)' % ", ".join(lists['undecided']), head)
+s = s[:a] + head + table + "\n" + s[t1:]
+open(p, 'w').write(s)
+print(stat, lists)
